@@ -171,6 +171,7 @@ def run(ctx):
     id_ref_any(ctx, q, rp)
     # ---------------- From<T> / unwrap_*
     from_unwrap(ctx)
+    from_mir(ctx, rp)
     rp.close()
     ctx.validated = rp.count
     ctx.extra["cvc5"] = q.summary()
@@ -352,6 +353,90 @@ def id_ref_any(ctx, q, rp):
                         probe_, got, real = confirmed
                         ctx.violation("operand/%s/%s" % (fname, name), "Operand::%s(%d): %s returns %s, expected %s" % (name, probe_, fname, got, ("Some(%d)" % probe_) if want else "None"),
                                       {"cmd": "id_ref_any %s %d" % (name, probe_), "real": real})
+
+
+
+def from_mir(ctx, rp):
+    """Every `impl From<T> for Operand` (generated and hand-written, `From<&str>` included) executed from its MIR with the payload
+    symbolic: the result must be one Operand variant holding exactly the payload — for every u32 / u64 by z3, for every string or
+    enumeration value because the payload is an opaque symbol that must come back untouched. An impl that cannot be shown to do so
+    is probed on the compiled crate (conversion followed by the unwrap_* extractor) with payloads chosen for the conversion's type;
+    a probe that fails is a concrete counterexample, no failing probe leaves the impl inconclusive."""
+    mf = mir.MirFile(mir_path("rspirv"))
+    ms = mir.MirFile(mir_path("spirv"))
+    registry = regmod.build_registry()
+    n = 0
+    variants = {}
+    for name, lst in sorted(mf.items.items()):
+        if not re.search(r"<impl at rspirv/dr/(autogen_operand|constructs)\.rs:[^>]*>::from$", name):
+            continue
+        for k, ln in lst[:1]:
+            fn = mf.parse_item(ln)
+            if len(fn.args) != 1:
+                continue
+            ty = fn.args[0][1].strip()
+            if ty == "u32":
+                arg = z3.BitVec("payload", 32)
+            elif ty == "u64":
+                arg = z3.BitVec("payload", 64)
+            else:
+                arg = sym.Sym("payload", ty)
+            tag = "From-from-MIR/%s" % ty
+            eng = sym.Engine([mf, ms], registry, eager=True, loop_bound=4)
+            why = None
+            try:
+                res = eng.run(fn, [arg], mem={}, pc=[])
+            except mir.Unsupported as ex:
+                res, why = [], "not encodable: %s" % str(ex)[:160]
+            ctx.functions.add("dr::Operand::from(%s)" % ty)
+            n += 1
+            if why is None:
+                if len(res) != 1 or res[0].status != "return":
+                    why = "%d paths, first %s" % (len(res), res[0].status if res else "-")
+                else:
+                    v = res[0].value
+                    if not (isinstance(v, sym.Adt) and v.ty.endswith("Operand") and len(v.fields) == 1):
+                        why = "result is %r" % (v,)
+                    else:
+                        f = v.fields[0]
+                        if z3.is_expr(arg):
+                            s_ = z3.Solver()
+                            s_.add(f != arg) if z3.is_expr(f) and f.sort() == arg.sort() else s_.add(z3.BoolVal(True))
+                            if s_.check() != z3.unsat:
+                                why = "payload altered: %s" % f
+                        elif not (isinstance(f, sym.Sym) and f.name == "payload" and not f.over):
+                            why = "payload altered: %r" % (f,)
+                        if why is None:
+                            variants.setdefault(v.variant, []).append(ty)
+            if why is None:
+                ctx.ob(tag, True)
+                continue
+            # native probes
+            kind = "str" if ty in ("&str", "&'a str") else "string" if ty.endswith("String") else ty if ty in ("u32", "u64") else None
+            if kind is None:
+                ctx.ob(tag, None, why)
+                continue
+            if kind in ("str", "string"):
+                probes = [b"", b"a", b"a\x00b", b"tail\x00", b"\x00", "\u00e9\u0000x".encode(), b" lead", b"trail ", b"x" * 70, "\u4e2d\u6587".encode()]
+                cmds = ["from_roundtrip %s %s" % (kind, pb.hex() or "-") for pb in probes]
+            else:
+                cmds = ["from_roundtrip %s %d" % (kind, x) for x in (0, 1, 0x7fffffff, 0x80000000, 0xffffffff, 1 << 32, (1 << 64) - 1) if kind == "u64" or x < (1 << 32)]
+            hit = None
+            for cmd in cmds:
+                real = rp.ask(cmd)
+                if "panic" in real or real.get("same") is False or real.get("agree") is False:
+                    hit = (cmd, real)
+                    break
+            if hit:
+                ctx.ob(tag, False, "%s; native: %s" % (why, str(hit[1])[:200]))
+                ctx.violation("From/%s/payload-not-preserved" % kind,
+                              "Operand::from(%s) followed by the unwrap_* extractor does not return the payload (%s); on the compiled crate %r answers %s"
+                              % (ty, why, hit[0], str(hit[1])[:300]), {"cmd": hit[0], "real": hit[1]})
+            else:
+                ctx.ob(tag, None, "%s; no native probe fails" % why)
+    # two conversions into the same variant (From<&str> / From<String>) are both identity on the payload, hence agree
+    ctx.extra["from_impls_from_mir"] = n
+    ctx.bounds.append("From<T> for Operand: %d impls from MIR, payload symbolic (all u32 / u64 values; strings and enumeration values as opaque symbols)" % n)
 
 
 def from_unwrap(ctx):
